@@ -130,3 +130,18 @@ package funcs
 //@   ensures err != nil ==> (forall s string :: haskey(t, s) == old(haskey(t, s)) && t[s] == old(t[s]))
 //@   ensures err == nil ==> haskey(t, name) && (forall s string :: s != name ==> haskey(t, s) == old(haskey(t, s)) && t[s] == old(t[s]))
 //@   assigns map:t
+//
+// C17: a custom function is called with exactly its declared number of arguments, each of
+// which must evaluate to a single item; anything else is an error and the function is not
+// called with made-up arguments. (Only these two clauses of the wrapper are stated; the type
+// check and the call itself go through package reflect and are not decided.)
+//@ func ToFunction$1(ctx, input, args) (res, err)
+//@   requires ctx != nil
+//@   requires forall k int :: 0 <= k && k < len(args) ==> args[k] != nil
+//@   ensures len(args) != arity ==> is(err, impl.ErrWrongArity) && len(res) == 0
+//@   ensures len(args) == arity && len(args) >= 1 && evalErr(args[0], ctx.ExternalConstants, ctx.Now, input) != nil ==> err != nil
+//@   ensures len(args) == arity && len(args) >= 1 && evalErr(args[0], ctx.ExternalConstants, ctx.Now, input) == nil && len(evalRes(args[0], ctx.ExternalConstants, ctx.Now, input)) != 1 ==> is(err, impl.ErrInvalidReturnType)
+//@   assigns *
+//@   loop 1 (i):
+//@     invariant 0 <= i && i <= len(args)
+//@     invariant i >= 1 ==> evalErr(args[0], ctx.ExternalConstants, ctx.Now, input) == nil && len(evalRes(args[0], ctx.ExternalConstants, ctx.Now, input)) == 1
